@@ -239,8 +239,8 @@ def main(tier, seed, replay=None):
     scs += [gen_random(rnd) for _ in range(60 if tier == 'quick' else 1500)]
     skel = dict(skel_idx)
     compared = 0
-    for lo in range(0, len(scs), 400):          # chunk by chunk: bounded memory in thorough runs
-        part = scs[lo:lo + 400]
+    for lo in range(0, len(scs), 150):          # chunk by chunk: bounded JSON size / TLC heap in thorough runs
+        part = scs[lo:lo + 150]
         traces = run_scenarios(part)
         judge(v, traces, part)
         compare_outcomes(v, [(part[i], skel[lo + i], traces[i]) for i in range(len(part)) if lo + i in skel])
